@@ -147,7 +147,10 @@ func doShard(p *props.Property, tier string, seed uint64, spec, out string, know
 	i, _ := strconv.Atoi(parts[0])
 	n, _ := strconv.Atoi(parts[1])
 	rep := props.RunShard(p, tier, seed, i, n, known, budgetFor(tier))
-	b, _ := json.Marshal(rep)
+	b, err := json.Marshal(rep)
+	if err != nil {
+		fatal("shard report cannot be encoded: " + err.Error())
+	}
 	if err := os.WriteFile(out, b, 0o644); err != nil {
 		fatal(err.Error())
 	}
